@@ -130,7 +130,7 @@ func ruleLoopSessionUpdate(p *Program, r *Result, L *ssa.Function, handles []ssa
 	}
 	for i, h := range handles {
 		dk := fmt.Sprintf("%s:d#%d", key, i+1)
-		respAlloc, _ := stripConv(h.Common().Args[0]).(*ssa.Alloc)
+		respAlloc, _ := canonObject(stripConv(h.Common().Args[0])).(*ssa.Alloc)
 		if respAlloc == nil {
 			r.undecided("R-LOOP", dk, p.Pos(h.Pos()), "response is not a local allocation")
 			continue
@@ -156,7 +156,7 @@ func ruleLoopSessionUpdate(p *Program, r *Result, L *ssa.Function, handles []ssa
 				continue
 			}
 			f, base, ok := loadedField(x)
-			if !ok || base != ssa.Value(respAlloc) || !typeIs(f.Type(), modPath, "Handler") {
+			if !ok || canonObject(base) != ssa.Value(respAlloc) || !typeIs(f.Type(), modPath, "Handler") {
 				continue
 			}
 			if !domInstr(h, iff) {
@@ -178,7 +178,7 @@ func ruleLoopSessionUpdate(p *Program, r *Result, L *ssa.Function, handles []ssa
 		_ = onAll
 		isRemover := func(c ssa.CallInstruction) bool {
 			f := c.Common().StaticCallee()
-			if f == nil || f.Blocks == nil || len(c.Common().Args) < 2 || c.Common().Args[0] != table {
+			if f == nil || f.Blocks == nil || len(c.Common().Args) < 2 || !sameObjectValue(c.Common().Args[0], table) {
 				return false
 			}
 			return containsBuiltin(f, "delete")
@@ -187,7 +187,7 @@ func ruleLoopSessionUpdate(p *Program, r *Result, L *ssa.Function, handles []ssa
 		var updFn *ssa.Function
 		isUpdater := func(c ssa.CallInstruction) bool {
 			f := c.Common().StaticCallee()
-			if f == nil || f.Blocks == nil || len(c.Common().Args) != 3 || c.Common().Args[0] != table {
+			if f == nil || f.Blocks == nil || len(c.Common().Args) != 3 || !sameObjectValue(c.Common().Args[0], table) {
 				return false
 			}
 			a := c.Common().Args
@@ -214,7 +214,7 @@ func ruleLoopSessionUpdate(p *Program, r *Result, L *ssa.Function, handles []ssa
 		// arguments: header = the response's stored header (advanced by Reply), next = the response's continuation
 		fh, bh, okh := loadedField(updArgs[1])
 		fn, bn, okn := loadedField(updArgs[2])
-		argsOK := okh && okn && bh == ssa.Value(respAlloc) && bn == ssa.Value(respAlloc) && typeIs(fh.Type(), modPath, "Header") && typeIs(fn.Type(), modPath, "Handler")
+		argsOK := okh && okn && canonObject(bh) == ssa.Value(respAlloc) && canonObject(bn) == ssa.Value(respAlloc) && typeIs(fh.Type(), modPath, "Header") && typeIs(fn.Type(), modPath, "Handler")
 		r.cond(argsOK, "R-LOOP", dk+":update-args", p.Pos(h.Pos()),
 			"the entry is updated with the response's own header (the reply header after Reply) and the response's own continuation",
 			"the session entry is not updated with (response header, response continuation): the stored sequence number or continuation would be another one's")
